@@ -1194,6 +1194,31 @@ func c11History(r *hx.R, root string, idx int, tier string, st *c11Stats) hx.Cas
 				if ok {
 					nOK++
 				}
+				if ok && r.Chance(0.7) {
+					// ... a query notices that the directory is gone; the link comes back leading to ANOTHER directory; files
+					// appear there: the cache must follow the new target (the old watch is gone, the new one is a watch of its own)
+					time.Sleep(time.Duration(r.Intn(20)) * time.Millisecond)
+					_, _ = hx.Guard(func() { _ = cache.ListDevices() })
+					labels = append(labels, hx.P("LQuery", "true"))
+					human = append(human, "query")
+					c11Uniq++
+					real2 := filepath.Join(base, fmt.Sprintf("real%d-%d", d, c11Uniq))
+					_ = os.Mkdir(real2, 0o755)
+					ok2 := os.Symlink(real2, dirs[d]) == nil
+					c11Links[dirs[d]] = real2
+					labels = append(labels, hx.P(hx.C("LOp", hx.C("OMkdir", hx.S(dirs[d]))), hx.B(ok2)))
+					human = append(human, fmt.Sprintf("the link d%d comes back, leading to another (empty) directory => %v", d, ok2))
+					if ok2 {
+						nOK++
+						time.Sleep(time.Duration(r.Intn(20)) * time.Millisecond)
+						if r.Chance(0.5) {
+							_, _ = hx.Guard(func() { _ = cache.ListDevices() })
+							labels = append(labels, hx.P("LQuery", "true"))
+							human = append(human, "query")
+						}
+						do(c11Op{Kind: hx.Pick(r, []string{"write", "movein"}), Dir: d, N: hx.Pick(r, []string{"a.json", "b.yaml", "c.json"}), C: 3 + r.Intn(len(c11Pool)-3)})
+					}
+				}
 			}
 		}
 	case k < 90 && c11Pending("queue-overflow"):
